@@ -415,6 +415,7 @@ MANIFEST_META = {
                   "(incl. keyword blades with arbitrary even/odd permuted spellings, custom bases, graded algebras) and every accessor "
                   "(attribute access with any spelling, items, containment, grade, asfullmv, map, filter) must reflect exactly the "
                   "supplied coefficients; deliberately inconsistent inputs must raise."
-                  " Inconsistent by-name constructions (name= + keys= + grades= / convenience constructors) must raise too; reads must not change array-valued or inf coefficients.",
+                  " Inconsistent by-name constructions (name= + keys= + grades= / convenience constructors) must raise too; reads must not change array-valued or inf coefficients."
+                  " map / filter with classes and builtins (Fraction, float, complex, abs, bool); grade selection of the argument of a registered function.",
     "level_note": "Trusted: kv.refalg for spelling parity and canonical order. d<=4; spellings of grade<=4 blades.",
 }
